@@ -503,3 +503,9 @@ func TestVerifC11Corrupt(t *testing.T) {
 		"rapid: address extension built from 0-3 families (right / wrong family bytes) x 0-3 bit strings of 0-17 bytes with 0-7 unused bits (incl. BitLength 33-136), then optionally truncated / trailing bytes / wrapped in OCTET STRING / empty / garbage / doubled; signed by the role CA key or the operator client CA; peer random or moved inside a well-formed block; non-trivial = oversized or structurally corrupted or at least one well-formed block; distinct = (shape, inside)",
 		c11GenCorrupt, c11CorruptCheck)
 }
+
+// FuzzVerifC11Corrupt: coverage-guided search (go test -fuzz) over the entropy
+// stream of the generator of TestVerifC11Corrupt, with the same oracle.
+func FuzzVerifC11Corrupt(f *testing.F) {
+	vRunFuzz(f, "native coverage-guided fuzzing of the entropy stream of the TestVerifC11Corrupt generator (rapid.MakeFuzz); same case structure, oracle, non-trivial rule and distinctness rule as TestVerifC11Corrupt", c11GenCorrupt, c11CorruptCheck)
+}
